@@ -193,6 +193,13 @@ func (w *World) body(id string, r Resp, rng *rand.Rand) string {
 		return pick(rng, []string{`"just a string"`, `42`, `true`, `null`})
 	case "garbage":
 		return pick(rng, []string{`<html><body>nope</body></html>`, `{"id": "x", "type": `, `{id: 1}`, "\x00\x01\x02", `{"a":1`})
+	case "locline":
+		/* text that looks like a header, after the blank line: no header */
+		target := id
+		if r.Twin != "" {
+			target = r.Twin
+		}
+		return "The document has moved.\r\n" + pick(rng, []string{"Location", "location"}) + ": " + w.URL(target) + pick(rng, []string{"\r\n", "\n", ""}) + "see there\n"
 	case "empty":
 		return ""
 	}
